@@ -62,7 +62,7 @@ CHECKS.update({
 })
 CHECKS.update({
  "C11": dict(cat="exploration", tech="stateless model checking: bounded-preemption depth-first enumeration of all schedules of 2-3 real pipelines under a cooperative scheduler with hooked yield points; free-running -race pass as a complement",
-   text="12 two-pipeline scenarios (and one three-pipeline scenario) of parse -> print -> dump -> resolve on goroutines under a cooperative scheduler: ALL schedules with <= 1 preemption over every yield point (Lex calls, scanner restarts, error callbacks, every printer/dumper write, resolver enter/leave) and ALL schedules with <= 2 preemptions over the coarser point set; every observation of every pipeline must equal its sequential baseline; plus all sequential histories of <= 3 pipelines over 14 programs (the last result must not depend on its predecessors). Thorough adds three longer pipelines, bound 3 on short programs and bound 2 over all points. More than 3 pipelines and interference between yield points are not explored (the latter is sampled by the -race pass).",
+   text="13 two-pipeline scenarios (and one three-pipeline scenario) of parse -> print -> dump -> resolve on goroutines under a cooperative scheduler: ALL schedules with <= 1 preemption over every yield point (Lex calls, scanner restarts, error callbacks, every printer/dumper write, resolver enter/leave) and ALL schedules with <= 2 preemptions over the coarser point set; every observation of every pipeline must equal its sequential baseline; plus all sequential histories of <= 3 pipelines over 18 programs (the last result must not depend on its predecessors). Thorough adds three longer pipelines, bound 3 on short programs and bound 2 over all points. More than 3 pipelines and interference between yield points are not explored (the latter is sampled by the -race pass).",
    note="Trusted: the overlay hooks see every Lex call and scanner restart. The -race pass (16 goroutines x 6 rounds x 89 pipelines, results compared with sequential baselines) is sampling.", ref="§C11"),
  "C14": dict(cat="model_checking", tech="exhaustive enumeration of the reference name-resolution model's program space (namespace forms x import sets and pairs x reference positions x name forms), each program replayed on the real parser+resolver and compared entry by entry",
    text="9 namespace forms x (18 import sets + all compatible ordered pairs) x 40 reference positions x 35 names under 7.4 and 5.6, plus multi-reference programs: ResolvedNames must contain exactly the entries the reference resolver (a transcription of the manual's name resolution rules) predicts - missing, wrong and extra entries are all violations.",
